@@ -3,6 +3,7 @@ import copy, pickle
 from lib import *
 from nodecorr import *
 import corpus
+from parsecorr import show_ast
 
 PROP_FILES = ["props/C15.v"]
 TRANSLATORS = ["tr_ast.py"]
@@ -92,6 +93,17 @@ def run(ctx, b, broken):
             ctx.traces += 1
             if mo != io_:
                 disagreements.append(("repr", v, io_, mo))
+            # the evaluator of PyEvalTree.v against Python's eval on the implementation's repr text
+            ns = {k: getattr(c_ast, k) for k in dir(c_ast) if not k.startswith("_")}
+            try:
+                ev = show_ast(eval(io_, ns), True)
+            except RecursionError:
+                ev = None
+            if ev is not None:
+                me = model.call(15, io_)
+                ctx.traces += 1
+                if me != ev:
+                    disagreements.append(("eval", v, ev, me))
         if len(ctx.samples) < 4:
             ctx.sample({"suite": suite, "value": v if len(flat) < 600 else flat[:600]})
 
@@ -134,7 +146,7 @@ def run(ctx, b, broken):
     ctx.notes["rule"] = "non-trivial = a tree with at least one list-valued field and a string needing an escape (quote, backslash, control or non-ASCII); distinct by value"
     if disagreements:
         what, v, io_, mo = min(disagreements, key=lambda d: len(json.dumps(d[1])))
-        broken.append({"kind": "correspondence", "name": f"repr model vs Python ({what})", "input": v,
+        broken.append({"kind": "correspondence", "name": f"repr/eval model vs Python ({what})", "input": v,
                        "implementation": io_, "model": mo, "count": len(disagreements)})
 
 
